@@ -150,6 +150,17 @@ def gen_pair(rng, maxrows=8, how=None, force_sort=None, min_rows=0):
                     decoy = [["s", f"decoy{r}"] if rng.random() < 0.8 else ["N"] for r in range(n_rows)]
                     pos = next(i for i, (cn, _) in enumerate(side) if cn == nm)
                     side.insert(pos, [nm.upper(), decoy])
+        if rng.random() < 0.15:
+            # a column with the SAME name as a key column given by name, further right, with other values (what a table that is
+            # itself the result of a join on equally named keys looks like): t[name] - and a key given by name - is the FIRST
+            for side, on in ((L, lon), (R, ron)):
+                named = [s_[1] for s_ in on if s_[0] == "n"]
+                if named and side:
+                    nm = rng.choice(named)
+                    n_rows = len(side[0][1])
+                    pos = next(i for i, (cn, _) in enumerate(side) if cn == nm)
+                    twin = [["N"] if rng.random() < 0.4 else rng.choice(side[pos][1]) for r in range(n_rows)]
+                    side.insert(rng.randint(pos + 1, len(side)), [nm, twin])
         if rng.random() < 0.3:                              # pair the key columns in another order
             perm = list(range(nk))
             rng.shuffle(perm)
